@@ -18,6 +18,7 @@ package transform
 import (
 	"errors"
 	"fmt"
+	"strings"
 
 	kanzi "github.com/flanglet/kanzi-go/v2"
 	internal "github.com/flanglet/kanzi-go/v2/internal"
@@ -633,7 +634,7 @@ func newTextCodec1WithCtx(ctx *map[string]any) (*textCodec1, error) {
 				return nil, errors.New("Text codec: invalid entropy type")
 			}
 
-			if entropyName == "TPAQX" {
+			if strings.ToUpper(entropyName) == "TPAQX" {
 				log++
 			}
 		}
@@ -1161,7 +1162,7 @@ func newTextCodec2WithCtx(ctx *map[string]any) (*textCodec2, error) {
 				return nil, errors.New("Text codec: invalid entropy type")
 			}
 
-			if entropyName == "TPAQX" {
+			if strings.ToUpper(entropyName) == "TPAQX" {
 				log++
 			}
 		}
